@@ -95,6 +95,19 @@ def replay(r):
             return True, "fimo(reverse_complement=False, return_counts=True) raised %s: %s" % (type(e).__name__, e)
         if [int(v) for v in cf_] != [len(d) for d in rf_]:
             return True, "forward-only counts %s differ from the forward-only hit tables %s" % (list(cf_), [len(d) for d in rf_])
+    # return_counts and dim=1 against the hit tables of the same two-strand scan
+    try:
+        tabs_ = fimo(motifs, X, bin_size=bin_size, eps=eps, threshold=thr, reverse_complement=True)
+        cnt_ = fimo(motifs, X, bin_size=bin_size, eps=eps, threshold=thr, reverse_complement=True, return_counts=True)
+        dim1_ = fimo(motifs, X, bin_size=bin_size, eps=eps, threshold=thr, reverse_complement=True, dim=1)
+    except Exception as e:
+        return True, "fimo raised %s: %s" % (type(e).__name__, e)
+    if [int(v) for v in cnt_] != [len(d) for d in tabs_]:
+        return True, "return_counts %s differs from the per-motif hit tables of the same scan %s" % ([int(v) for v in cnt_], [len(d) for d in tabs_])
+    by_seq = sorted((int(n_), int(q), int(s_), str(st)) for q, d in enumerate(tabs_) for n_, s_, st in zip(d["sequence_name"], d["start"], d["strand"]))
+    by_seq1 = sorted((int(n_), int(q), int(s_), str(st)) for d in dim1_ for n_, q, s_, st in zip(d["sequence_name"], d["motif_idx"], d["start"], d["strand"]))
+    if any(len(set(d["sequence_name"])) != 1 for d in dim1_) or by_seq != by_seq1:
+        return True, "dim=1 grouping %s does not describe the hit set of the dim=0 tables %s" % (by_seq1[:4], by_seq[:4])
     for rc in (True, False):
         res = scan(X, rc)
         if isinstance(res, Exception):
@@ -399,6 +412,7 @@ def configs(tier):
     cf.append(dict(kind="glue", B=1, L=3, pwms=[pw1], threshold=0.3, views="fwd"))
     cf.append(dict(kind="glue", B=2, L=2, pwms=[pw1], threshold=0.3, views="fasta"))
     cf.append(dict(kind="glue", B=1, L=3, pwms=[pw1], threshold=0.3, views="history"))
+    cf.append(dict(kind="glue", B=1, L=3, pwms=[pw1, pw2], threshold=0.3, views="views"))      # several motifs: per-motif strand pairing of counts / frames
     if not q:
         cf.append(dict(kind="glue", B=1, L=4, pwms=[pw1, pw2], threshold=0.3, views="rc"))
         cf.append(dict(kind="glue", B=2, L=3, pwms=[pw2], threshold=0.4, views="all"))
